@@ -686,7 +686,9 @@ func (dr *dirRepo) gc() error {
 			} {
 				err := os.Remove(dir)
 				if err != nil && !errors.Is(err, fs.ErrNotExist) {
+					// content remains (e.g. recently uploaded blobs), keep the index and layout files
 					errs = append(errs, err)
+					break
 				}
 			}
 			return errors.Join(errs...)
